@@ -91,6 +91,7 @@ def sweep(u, unit_dir, scratch):
     cur_fn = None
     seen = set()
     seen_w = set()
+    order = []
     for line in text.split('\n'):
         s = line.strip()
         if s.startswith('//@@ fn '):
@@ -99,6 +100,7 @@ def sweep(u, unit_dir, scratch):
             if cur_fn is None or (cur_fn, lab) in seen:
                 continue
             seen.add((cur_fn, lab))
+            order.append((cur_fn, lab))
             w = _run(exe, lab, cur_fn)
             if w:
                 key = json.dumps(w, sort_keys=True)
@@ -106,6 +108,16 @@ def sweep(u, unit_dir, scratch):
                     continue        # the same failing input already reported under another clause
                 seen_w.add(key)
                 found.append(dict(fn=cur_fn, label=lab, witness=w))
+    # a replay program that ignores the clause name reports the function it caught: file the input under that function's first clause
+    for f in found:
+        wf = f['witness'].get('function') if isinstance(f['witness'], dict) else None
+        if not wf and isinstance(f['witness'], dict) and 'raw' in f['witness']:
+            m = re.search(r'"function": "([^"]+)"', f['witness']['raw'])
+            wf = m.group(1) if m else None
+        if wf and wf != f['fn'] and wf.split('::')[-1] != f['fn'].split('::')[-1]:
+            cand = [(fn, lab) for (fn, lab) in order if fn == wf or fn.split('::')[-1] == wf.split('::')[-1]]
+            if cand and not any(g is not f and g['fn'] == cand[0][0] and g['label'] == cand[0][1] for g in found):
+                f['fn'], f['label'] = cand[0]
     return found
 
 
